@@ -21,6 +21,7 @@ type vfScenario struct {
 	Specs   []vfFileSpec
 	Resume  int // > 0: the destination already holds the first Resume bytes of every source file (overwrite/resume)
 	Diverge int // > 0: ... followed by this many bytes that differ from the source
+	Longer  int // > 0: the destination already holds the whole source followed by this many extra bytes
 }
 
 func vfFaultScenarios() []vfScenario {
@@ -52,6 +53,13 @@ func vfFaultScenarios() []vfScenario {
 	sc[len(sc)-1].Resume = 500
 	add("up-p4-resume", vfCfg{Dir: "up", Overwrite: true, Direct: true}, []string{"one.bin"}, one)
 	sc[len(sc)-1].Resume = 2999
+	// overwrite of a destination that is the source plus a few extra bytes (protocol 3 announces the size in a plain line)
+	add("down-p3-longer", vfCfg{Dir: "down", Protocol: 3, Overwrite: true, Direct: true}, []string{"one.bin"}, one)
+	sc[len(sc)-1].Longer = 7
+	add("up-p3-longer-bin", vfCfg{Dir: "up", Protocol: 3, Overwrite: true, Binary: true, Direct: true}, []string{"a.txt", "b.bin"}, two)
+	sc[len(sc)-1].Longer = 3
+	add("up-p4-longer", vfCfg{Dir: "up", Overwrite: true, Direct: true}, []string{"one.bin"}, one)
+	sc[len(sc)-1].Longer = 500
 	add("down-p4-filter", vfCfg{Dir: "down"}, []string{"a.txt", "b.bin"}, two)
 	add("up-p4-filter-bin", vfCfg{Dir: "up", Binary: true}, []string{"one.bin"}, one)
 	return sc
@@ -107,6 +115,15 @@ func vfRunScenario(c *vfCtx, sc vfScenario, tag string, setup func(s *vfSession)
 	var paths []string
 	for _, t := range sc.Tops {
 		paths = append(paths, filepath.Join(src, t))
+		if sc.Longer > 0 {
+			if b, err := os.ReadFile(filepath.Join(src, t)); err == nil {
+				d := append([]byte(nil), b...)
+				for i := 0; i < sc.Longer; i++ {
+					d = append(d, byte('A'+i%26))
+				}
+				os.WriteFile(filepath.Join(dst, t), d, 0644)
+			}
+		}
 		if sc.Resume > 0 {
 			if b, err := os.ReadFile(filepath.Join(src, t)); err == nil && len(b) > sc.Resume {
 				d := append([]byte(nil), b[:sc.Resume]...)
@@ -248,7 +265,29 @@ func TestVF_C02(t *testing.T) {
 					nf = 2 + r.Intn(2)
 				}
 				plan := vfFaultPlan{Dir: dir}
-				if sc.Resume > 0 && k%4 == 1 {
+				if sc.Longer > 0 && k%2 == 1 {
+					// one bit of one digit of a SIZE line sent by the sending side
+					dir = "s2c"
+					msgs, total = base.s2c, base.s2cLen
+					if sc.Cfg.Dir == "up" {
+						dir = "c2s"
+						msgs, total = base.c2s, base.c2sLen
+					}
+					plan.Dir = dir
+					var sizes []vfMsg
+					for _, m := range msgs {
+						if m.Type == "SIZE" && m.End-m.Start > 7 {
+							sizes = append(sizes, m)
+						}
+					}
+					if len(sizes) > 0 {
+						m := sizes[(k/2)%len(sizes)]
+						off := m.Start + 6 + int64(r.Intn(int(m.End-m.Start-7)))
+						plan.Faults = append(plan.Faults, vfFault{Off: off, Kind: "flip", Arg: r.Intn(4)})
+						plan.Phase = "SIZE-digit"
+						nf = 0
+					}
+				} else if sc.Resume > 0 && k%4 == 1 {
 					// resume scenarios: damage one of the first acknowledgement lines (NUM echo, target-file reply,
 					// prefix-hash acks) of the receiving side
 					dir = "c2s"
@@ -387,7 +426,7 @@ func TestVF_C02(t *testing.T) {
 						c.rec.St, c.rec.VSig, c.rec.Msg = "ok", "", ""
 						c.mu.Unlock()
 						c.Obs("pre_handshake_stalls", 1)
-						if d := vfSnapshot(filepath.Join(c.Dir, "dst-fault")); len(d) != 0 && sc.Resume == 0 {
+						if d := vfSnapshot(filepath.Join(c.Dir, "dst-fault")); len(d) != 0 && sc.Resume == 0 && sc.Longer == 0 {
 							c.Viol("c02-prehandshake-wrote", "the handshake never began, yet the destination holds %d entries", len(d))
 						}
 					}
